@@ -35,6 +35,7 @@ var riskyFeatures = []string{
 	"continue.in.while", "continue.in.dowhile", "continue.in.for", "continue.in.foreach", "continue.level>=2", "switch.continue-level",
 	"switch.default-middle", "switch.group", "switch.fallthrough",
 	"dowhile.then-prefix-incdec", "collect", "counter.bump",
+	"loop.fordown", "break.in.fordown", "continue.in.fordown",
 }
 
 var featurePrereq = map[string][]string{
